@@ -98,6 +98,16 @@ def install(model, seeds, with_stats=True, reuse_streams=False, long_lived_produ
                     from pydsol.core.streams import StreamSeedUpdater
                     named = {"s%d" % i: so for i, so in enumerate(m.stream_objects)}
                     StreamSeedUpdater({"s%d" % i: [sd] for i, sd in enumerate(m.seeds)}).update_seeds(named, 0)
+                elif reuse_streams == "simple":
+                    from pydsol.core.streams import SimpleStreamUpdater
+                    SimpleStreamUpdater().update_seeds({"s%d" % i: so for i, so in enumerate(m.stream_objects)}, 2)
+            elif reuse_streams == "simple":
+                # the streams keep their ORIGINAL seeds; every replication is prepared with the library's default
+                # updater for replication number 2 (seed = f(name, original seed, 2), whatever happened before)
+                from pydsol.core.streams import SimpleStreamUpdater
+                if [so.original_seed() for so in m.stream_objects] != list(m.seeds):
+                    m.stream_objects = [MersenneTwister(s) for s in m.seeds]
+                SimpleStreamUpdater().update_seeds({"s%d" % i: so for i, so in enumerate(m.stream_objects)}, 2)
             elif reuse_streams == "updater":
                 # the experiment idiom: long-lived named streams, seeded for the replication by a StreamSeedUpdater
                 from pydsol.core.streams import StreamSeedUpdater
